@@ -15,3 +15,32 @@ Theorem C20_faults_in_place :
   forall ls mind maxd root, walk mind maxd ls root = walk_spec mind maxd ls root.
 Proof. exact walk_refines. Qed.
 Print Assumptions C20_faults_in_place.
+
+From WaxProofs Require Import HealFacts.
+
+(* "the remaining entries are exactly those a fault-free walk of the readable part of the tree would yield": removing the
+   error items from the walk of a tree with faults leaves, item for item and in order, the walk of the healed tree
+   (unreadable directories read as empty, error nodes removed) -- under any stack of layers and any depth window, so every
+   layer also observes the same entries with the same tags *)
+Theorem C20_entries_are_the_fault_free_walk :
+  forall ls mind maxd root,
+    is_err_node root = false ->
+    entries_only (walk mind maxd ls root) = walk mind maxd ls (heal root).
+Proof. exact walk_entries_heal. Qed.
+Print Assumptions C20_entries_are_the_fault_free_walk.
+
+(* the fault-free walk has no error item: every error item of the walk is due to a fault *)
+Theorem C20_no_fault_no_error :
+  forall ls mind maxd n d p q e,
+    is_err_node n = false -> ~ In (RError q e) (spec ls mind maxd d p (heal n)).
+Proof. exact heal_no_errors. Qed.
+Print Assumptions C20_no_fault_no_error.
+
+(* non-vacuity: a tree with an unreadable directory, a dangling link and a file; one error each, the file survives *)
+Example C20_heal_example :
+  let t := NDir [([97%N], NDirErr); ([108%N], NErr); ([102%N], NFile)] in
+  walk 0%nat None [] t =
+    [REntry (mkEntry [] true) Filtrate []; REntry (mkEntry [[97%N]] true) Filtrate []; RError [[97%N]] 1;
+     RError [[108%N]] 1; REntry (mkEntry [[102%N]] false) Filtrate []]
+  /\ heal t = NDir [([97%N], NDir []); ([102%N], NFile)].
+Proof. vm_compute. split; reflexivity. Qed.
